@@ -149,6 +149,8 @@ class Verdict:
         for clause, sig, items, e in known:
             print(f"KNOWN-FINDING: property={self.prop} clause={clause} sig={sig} ({len(items)} cases) {e['what']}")
         rc = 0
+        if (REPLAYS / self.prop).exists():
+            shutil.rmtree(REPLAYS / self.prop, ignore_errors=True)      # bundles of earlier runs are stale
         for clause, sig, items in new:
             rp = self._write_replay(clause, sig, items)
             print(f"VIOLATION property={self.prop} replay={rp}")
